@@ -91,10 +91,10 @@ def _paths(prog, b, helpers):
     return paths
 
 
-def _decide(ctx, prog, name, b, paths, rows, vdom):
+def _decide(ctx, prog, name, b, paths, rows, vdom, constraints=()):
     key = "%s|%s" % (prog.config, name)
     try:
-        mism, n, dec = table.compare(paths, rows, variant_domain=vdom)
+        mism, n, dec = table.compare(paths, rows, variant_domain=vdom, constraints=constraints)
     except table.Undecided as e:
         ctx.violation("TAB-SPLIT", key, "undecided: %s" % e, b.file())
         return
@@ -137,7 +137,8 @@ def split_tables(ctx, prog):
             Row([("is", STATE, 1), ("is", ES, 1), ne(("len", THIS), Int(0))], expect_some(ch, rem), name="Empty(Continue), chars left"),
             Row([("is", STATE, 1), ("is", ES, 1), eq(("len", THIS), Int(0))], expect_some(ch, rem, fin), name="Empty(Continue), exhausted"),
         ]
-        _decide(ctx, prog, "Split::" + m, b, paths, rows, {STATE: [0, 1, 2], ES: [0, 1], f: [0, 1]})
+        _decide(ctx, prog, "Split::" + m, b, paths, rows, {STATE: [0, 1, 2], ES: [0, 1], f: [0, 1]},
+                constraints=[table.found_fits(f, ("len", THIS), LD)])
     # RSplit == Split reversed
     for m, twin in (("next", "next_back"), ("next_back", "next")):
         a, c = prog.get(SP + "RSplit::" + m), prog.get(SP + "Split::" + twin)
@@ -195,7 +196,8 @@ def terminator_tables(ctx, prog):
             Row([("is", STATE, 0), ne0, ("is", f, 0)], last, name="Normal, no delimiter: whole remainder"),
             Row([("is", STATE, 1), ("is", ES, 1), ne0], expect_some(ch, rem), name="Empty(Continue), chars left"),
         ]
-        _decide(ctx, prog, ty + "::next", b, paths, rows, {STATE: [0, 1], ES: [0, 1], f: [0, 1]})
+        _decide(ctx, prog, ty + "::next", b, paths, rows, {STATE: [0, 1], ES: [0, 1], f: [0, 1]},
+                constraints=[table.found_fits(f, LT, LD)])
 
 
 def misc(ctx, prog):
